@@ -103,6 +103,50 @@ def run(prog, chk):
     _dispatch_rule(prog, chk, R, gates)
 
 
+def _flat_applicator(prog, chk, app, loop, amp, q, marr, sp, KS):
+    """`for (i = 0; i < n; ++i) { if (i & bit) continue; a0 = s[i]; a1 = s[i|bit]; s[i] = …; s[i|bit] = …; }` — evaluated per pair
+    with the K-PAIR transformer kernel; True when the loop has this form (obligations emitted), False to fall back"""
+    from .. import kpair as KP
+    fl = KP.full_state_loop(loop, amp)
+    if fl is None:
+        why = KP.partial_state_loop(loop, amp)
+        if why:
+            chk.ob('R01.5', app, loop.get('ln', app.ln), False, 'the sweep of the 2x2 applicator covers the whole state vector: it %s' % why, key='apply:flat-sweep')
+            return True
+        return False
+    F = KT.Folder()
+    bit_ids = []
+    for s_ in app.body['body']:
+        if s_['k'] == 'decls':
+            for v in s_['d']:
+                try:
+                    t = F.fold(v['init'])
+                except KT.Unfoldable:
+                    continue
+                F.env[v['id']] = t
+                if t == KT.op('<<', KT.I(1), KT.S(q['name'])):
+                    bit_ids.append(v['id'])
+    if not bit_ids:
+        return False
+    ms = [sp.Symbol('m%d' % k) for k in range(4)]
+    it = KP.PairIter(amp, fl[0]['id'], bit_ids, {}, {})
+    it.arrays = {marr['id']: ms}
+    try:
+        fin = KP.pair_final(it, fl[1])
+    except KP.OutsidePair as e:
+        chk.ob('R01.2', app, loop.get('ln', app.ln), False, 'the update acts on the pair (i, i|2^q): %s' % e, key='apply:cells')
+        return True
+    except (KP.NotPairwise, KS.Unfoldable):
+        return False
+    A0, A1 = KP.A
+    e0 = sp.expand(fin[0] - (ms[0] * A0 + ms[1] * A1))
+    e1 = sp.expand(fin[1] - (ms[2] * A0 + ms[3] * A1))
+    chk.ob('R01.5', app, loop.get('ln', app.ln), True, 'flat sweep over [0, %s.size()) handling each pair at its bit-clear index' % amp, key='apply:flat-sweep')
+    chk.ob('R01.2', app, app.ln, e0 == 0, 'cell with bit q clear receives m[0]·a0 + m[1]·a1 of the PRE-update amplitudes (difference %s)' % e0, key='apply:row0')
+    chk.ob('R01.2', app, app.ln, e1 == 0, 'cell with bit q set receives m[2]·a0 + m[3]·a1 of the PRE-update amplitudes (difference %s)' % e1, key='apply:row1')
+    return True
+
+
 def _loop_defect(s):
     """the statement is a counted loop over one declared index but deviates from `from 0, upwards, index untouched in the body`
     → reason; None when it is not that kind of loop at all (then the decomposition is simply not recognised)"""
@@ -179,6 +223,10 @@ def _apply_rule(prog, chk, R, app, amp, sp, KS):
     outer = loops[0]
     first_loop = [n for n in g.nodes if n.kind == 'loophead' and n.e is outer]
     chk.ob('R01.2', app, app.ln, bool(ens) and bool(first_loop) and g.must_precede(ens, first_loop[0]), 'guard on the qubit parameter precedes the update loop', key='apply:guard-first')
+    # alternative decomposition: one flat sweep over the vector that handles the pair (i, i|2^q) at the bit-clear index
+    if not [x for x in (outer['body']['body'] if outer['body']['k'] == 'block' else [outer['body']]) if x['k'] == 'for']:
+        if _flat_applicator(prog, chk, app, outer, amp, q, marr, sp, KS):
+            return
     # fold the straight-line definitions before the loop
     F = KT.Folder()
     for s in app.body['body']:
